@@ -351,3 +351,14 @@ Fixpoint nodup_paths (l : list (list str)) : bool :=
   end.
 Definition group_keys_distinct (groups : list group_entry) : bool :=
   nodup_paths (map group_key groups).
+
+(** * C17: boolean specifications evaluated on the implementation's output. *)
+Fixpoint suffixb (suf s : str) : bool :=
+  str_eqb suf s || match s with [] => false | _ :: tl => suffixb suf tl end.
+
+(** The case displayed under [path] received [v]: the path ends in "::" ++ to_string v. *)
+Definition c17_label_sb (path : str) (v : value) : bool :=
+  suffixb (s_colons ++ value_to_string v) path.
+
+(** Every argument list was evaluated exactly once. *)
+Definition c17_once_sb (counts : list N) : bool := forallb (N.eqb 1) counts.
